@@ -361,7 +361,7 @@ var fkPairs = [][2]string{
 	{"a b", "a  b"},
 	{"0a2c9d1e5f000001", "0a2c9d1e5f000002"},
 	{"A", "a"},
-	{"é", "é"},
+	{"\u00e9", "e\u0301"}, // NFC / NFD of the same glyph
 	{strings.Repeat("k", 300), strings.Repeat("k", 299)},
 	{"a", "b"},
 }
@@ -1169,7 +1169,7 @@ func adapter(raw json.RawMessage, env *rt.Env) (res rt.Result) {
 		return d + fmt.Sprintf(" on %s/%s", c.Level, c.Store)
 	}
 	for i := range hist {
-		if hist[i].Err != "ok" && hist[i].Op.A != "walk" && hist[i].Op.A != "verify" && w.atomic() != c.MainAtomic {
+		if a := hist[i].Op.A; hist[i].Err != "ok" && (a == "put" || a == "del" || a == "ins" || a == "rem") && w.atomic() != c.MainAtomic {
 			return rt.Infra("the history holds a failed transaction and was generated for the other store kind")
 		}
 	}
@@ -1203,7 +1203,11 @@ func adapter(raw json.RawMessage, env *rt.Env) (res rt.Result) {
 	evals := ck.evals
 
 	// ---- the probes: each on the store brought back to the history's final state by the history itself
-	refused := 0
+	refused, alts := 0, 0
+	perr, pact, hact := map[string]int{}, map[string]int{}, map[string]int{}
+	for i := range hist {
+		hact[hist[i].Op.A]++
+	}
 	for pi := range probes {
 		p := &probes[pi]
 		if err := w.reset(); err != nil {
@@ -1221,6 +1225,11 @@ func adapter(raw json.RawMessage, env *rt.Env) (res rt.Result) {
 		if p.Err != "ok" {
 			refused++
 		}
+		if p.Alt != nil {
+			alts++
+		}
+		perr[p.Err]++
+		pact[p.Op.A]++
 		pk := &checker{w: w, drift: drift}
 		before = w.rawBoth()
 		msg, got, want := pk.step(p, wantSt, wantObs)
@@ -1245,7 +1254,7 @@ func adapter(raw json.RawMessage, env *rt.Env) (res rt.Result) {
 		sb.WriteString(hist[i].Op.String())
 	}
 	res = rt.Result{OK: true, Step: -1, Sig: sb.String(), Nontrivial: curSt != nil && len(curSt.Src) > 0 && len(curSt.Idx) > 0}
-	res.Extra = map[string]interface{}{"probes": len(probes), "refused": refused, "steps": len(hist)}
+	res.Extra = map[string]interface{}{"probes": len(probes), "refused": refused, "steps": len(hist), "alts": alts, "perr": perr, "pact": pact, "hact": hact}
 	return finish(res, evals)
 }
 
